@@ -52,6 +52,14 @@ CLAIMED = {
    text="Lean theorems over any linearly ordered field: the mean lies within the range of the averaged points; identical values are a fixed point; the mean minimises the sum of squared deviations, hence for the alignments used by the step the summed squared deviation does not increase (fiberwise decomposition over positions); with C01 (any admissible path bounds the optimum) and C05 (the traced path is optimal) this gives the objective non-increase chain; unselected series are filtered out of the association table; bit mask packing. Executable model of one step (exact sums/counts) compared exactly with Python dba, dba(use_c) and C dtw_dba (when optimal paths are unique, decided by counting optimal paths); range / fixed-point / mask / objective / loop-bound laws evaluated on the implementation.",
    note="The final chain Σdtw²(c') <= Σdtw²(c) is stated as three theorems (two over the cost monoid, one over the field) rather than one combined statement over WithTop K; float summation order differences beyond the integer lattice are not modelled.",
    technique="Lean 4 proof (ordered-field arithmetic, list sums) + exact rational correspondence", ref="§6 C12"),
+ "C13": dict(
+   text="Lean theorems: with free start/end columns the last-row cell at end position e equals the minimum over start positions b<=e of the plain penalised DTW cost between the query and series[b..e] (shifting admissible paths between the alignment grid and the sub-problems, all sizes); the traced path of a match is admissible and realises the value; the k-best iterator, modelled as a state machine over the working copy (value / rejected / blocked slots), keeps in every reachable state: distinct end points, non-decreasing value order, length limits, and - without overlap - at most one shared boundary sample between any two matches. Correspondence: matching function (Python, C, ndim) vs model and vs min over sub-problem specs; best match / k-best matches re-validated; iterator compared exactly with the executable model; repeated and interleaved iteration.",
+   note="The invariants are proved for the relational model Reach; the executable kbestRun used for the correspondence follows the same steps (not linked by a Lean theorem). max_rangefactor / knee variants of the iterator are not modelled.",
+   technique="Lean 4 proof (path shifting; invariant induction over reachable iterator states) + differential correspondence", ref="§6 C13"),
+ "C14": dict(
+   text="Lean theorems: for every candidate list (ties/duplicates), k>=1, user bound, with or without the LB skip, the bounded scan (LB skip, thresholded distance call, k-best store, shrinking bound) returns a sorted list of genuine qualifying candidates of length <= k such that every unreported qualifying candidate is at least as far as every reported one and the report is then full - i.e. the k smallest distances in ascending order (indices up to ties); a prefix of a stored k0-best answer is a k-best answer; hence every answer along every query history satisfies the specification of a fresh object's answer. Correspondence: kbest_matches/best_match/align vs exhaustive scan, vs the executable model on exact distances and lower bounds, histories vs fresh objects, use_lb, use_c, ndim, max_dist/max_value.",
+   note="heapq modelled by its contract; lb<=dist (C09) and the threshold behaviour of the distance call (C03) enter as hypotheses; k=None branch validated by correspondence only.",
+   technique="Lean 4 proof (fold invariant over the candidate list; object state machine) + differential correspondence", ref="§6 C14"),
 }
 PENDING_REASON = "check under construction in this round (not yet registered); the technique applies, see DESIGN.md §6"
 
